@@ -249,11 +249,13 @@ VmTrap vm_core_execute(VmState *vm) {
 
         case OP_ROT3: {
             if (vm->stack_size < 3) break;
+            /* x y z -> y z x: the third element comes to the top (this is
+             * what the code generator's min/max lowering relies on) */
             uint32_t top = vm->stack_size - 1;
-            NanoValue a = vm->stack[top];
-            vm->stack[top] = vm->stack[top - 1];
-            vm->stack[top - 1] = vm->stack[top - 2];
-            vm->stack[top - 2] = a;
+            NanoValue x = vm->stack[top - 2];
+            vm->stack[top - 2] = vm->stack[top - 1];
+            vm->stack[top - 1] = vm->stack[top];
+            vm->stack[top] = x;
             break;
         }
 
